@@ -1611,6 +1611,9 @@ impl ContinuityStore {
                 Err(_) => break,
             }
 
+            if tail_bytes >= MAX_TAIL_BYTES {
+                break;
+            }
             tail_bytes = (tail_bytes * 2).min(MAX_TAIL_BYTES);
         }
 
@@ -1783,6 +1786,7 @@ impl ContinuityStore {
 
         let mut tail_bytes = INITIAL_TAIL_BYTES;
         let mut scanned_sidecar = false;
+        let mut tail_complete = false;
         while tail_bytes <= MAX_TAIL_BYTES {
             match self
                 .stream_cache
@@ -1838,6 +1842,7 @@ impl ContinuityStore {
                     }
 
                     if tail.complete || by_key.len() >= MAX_KEYS {
+                        tail_complete = true;
                         break;
                     }
                 }
@@ -1845,14 +1850,19 @@ impl ContinuityStore {
                 Err(_) => break,
             }
 
+            if tail_bytes >= MAX_TAIL_BYTES {
+                break;
+            }
             tail_bytes = (tail_bytes * 2).min(MAX_TAIL_BYTES);
         }
 
-        if !scanned_sidecar {
+        if !scanned_sidecar || !tail_complete {
             let events = self
                 .replay_events(thread_id)
                 .map_err(|err| format!("continuity replay failed: {err}"))?;
 
+            active = None;
+            by_key.clear();
             for event in events.iter().rev() {
                 let EventKind::ContinuityProviderCursorUpdated {
                     provider,
@@ -1996,6 +2006,9 @@ impl ContinuityStore {
                 Ok(None) => break,
                 Err(_) => break,
             }
+            if tail_bytes >= MAX_TAIL_BYTES {
+                break;
+            }
             tail_bytes = (tail_bytes * 2).min(MAX_TAIL_BYTES);
         }
 
@@ -2087,6 +2100,7 @@ impl ContinuityStore {
             {
                 Ok(Some(tail)) => {
                     scanned_sidecar = true;
+                    decisions.clear();
                     for event in tail.events.iter().rev() {
                         let EventKind::ContinuityContextSelectionDecided {
                             run_session_id,
@@ -2165,6 +2179,9 @@ impl ContinuityStore {
                 Err(_) => break,
             }
 
+            if tail_bytes >= MAX_TAIL_BYTES {
+                break;
+            }
             tail_bytes = (tail_bytes * 2).min(MAX_TAIL_BYTES);
         }
 
